@@ -564,3 +564,67 @@ def rule_context_writers(ctx, rep):
                       why="analysis results are modified outside the analyses")
     rep.count("context attribute writes", n)
     rep.require(n >= 10, f"only {n} context writes found")
+
+
+# ---------------------------------------------------------------------------------------------- P-BLOCK (provenance of block values)
+
+PROV_FIXTURE = '''
+from typing import TYPE_CHECKING
+if TYPE_CHECKING:
+    from tealer.teal.teal import Teal
+    from tealer.teal.functions import Function
+
+
+def bad_lookup(teal: "Teal", function: "Function") -> None:
+    for bb in teal.bbs:
+        function.transaction_context(bb)
+
+
+def good_lookup(function: "Function") -> None:
+    for bb in function.blocks:
+        function.transaction_context(bb)
+
+
+def bad_identity(teal: "Teal", function: "Function") -> bool:
+    for bb in teal.main.blocks:
+        if bb in function.main.blocks:
+            return True
+    return False
+'''
+
+
+def rule_block_provenance(ctx, rep):
+    from .. import provenance
+    rule = "P-BLOCK"
+    rep.rule(rule, "whole-package provenance analysis of BasicBlock values (contract's main graph / function's copy / subroutine / error block): "
+                   "no Function.transaction_context(...) lookup receives a block of the contract's own main graph, and no membership / identity test "
+                   "relates a block that can only be the contract's with one that can only be a function's copy")
+    sources = {}
+    for modname in ctx.trees:
+        sources[modname] = (ctx.root / ctx.path(modname)).read_text()
+    sources["tealer.zz_verif_fixture"] = PROV_FIXTURE
+    stats, res = provenance.analyse(sources)
+    fx = [r for r in res if r["module"] == "tealer.zz_verif_fixture"]
+    fired = sorted(r["function"] for r in fx if r["verdict"] == "violation")
+    rep.require(fired == ["bad_identity", "bad_lookup"], f"P-BLOCK fixture: fired on {fired}")
+    lookups = [r for r in res if r["kind"] == "lookup" and r["module"] != "tealer.zz_verif_fixture"]
+    idents = [r for r in res if r["kind"] == "identity" and r["module"] != "tealer.zz_verif_fixture"]
+    rep.require(len(lookups) >= 20, f"only {len(lookups)} transaction_context lookups found")
+    rep.require(len(idents) >= 8, f"only {len(idents)} identity tests between block values found")
+    unknown = 0
+    for r in lookups + idents:
+        if r["module"] in provenance.BUILDERS:
+            rep.count("sites inside the graph builders (both copies are handled there; not judged)")
+            continue
+        where = f"{ctx.path(r['module'])}:{r['line']}"
+        if r["verdict"] == "unknown":
+            unknown += 1
+            rep.note(f"P-BLOCK: provenance of the argument unknown at {where}: {r['expr']} (not judged)")
+            continue
+        why = ("a block of the contract's own graph is looked up in a table keyed by the function's copies (KeyError)" if r["kind"] == "lookup"
+               else "blocks of the contract's graph and of a function's copy are never the same object: the test is always false")
+        rep.check(r["verdict"] == "ok", rule, f"{r['module']}:{r['function']}: {r['expr'][:60]}", where, {"left": r["a"], "right": r["b"]},
+                  "function-side provenance" if r["kind"] == "lookup" else "comparable provenance", why=why,
+                  sample={"site": where, "expr": r["expr"], "provenance": r["a"], "vs": r["b"]})
+    rep.counts["P-BLOCK stats"] = stats
+    rep.count("P-BLOCK sites with unknown provenance", unknown)
